@@ -1,5 +1,5 @@
 ---------------------------- MODULE MCRegistry ----------------------------
-EXTENDS ChecksumRegistry
+EXTENDS RegistryLin
 CONSTANTS p1, p2, p3
 MCNames == {"A", "B"}
 MCServices == {<<"A", 1>>, <<"A", 2>>, <<"B", 1>>}
